@@ -246,6 +246,11 @@ def float_instances(task):
         P = rnd.randint(1, 6)
         K = rnd.randint(1, 5)
         F = 0.0 if rnd.random() < 0.1 else rnd.random() * 0.98 + 0.001
+        # the ends of (0, 1) every time (dispersion (1 - F) / F of several hundred to ten thousand; nearly complete inbreeding)
+        if _ % 3 == 0:
+            F = (0.004, 0.001, 0.0001, 0.995, 0.0055, 0.02)[(_ // 3) % 6]
+            P = (4, 6, 2, 4, 8, 5)[(_ // 3) % 6]
+            K = min(K, 4) if P >= 6 else K
         x = [rnd.gammavariate(0.7, 1.0) if rnd.random() > 0.15 else 0.0 for _ in range(K)]
         if sum(x) == 0:
             x[0] = 1.0
